@@ -277,9 +277,8 @@ private def docW : Node := .mk "Document" 0 [("definitions", .many [opW])]
 
 example (o : Out Unit) (h : visit table observer 8 docW () = .ok o) : BracketBefore dirW ssW o.tr :=
   siblings_in_source_order_today observer observer_is_observer 8 docW () o h (by decide +kernel) opW
-    (.child (st := ⟨none, "definitions", .many, .always, true, .disp "_visit_definition"⟩) .root (by decide +kernel)
-      (by simp [Holds, docW, Node.getAttr, Node.attrs, List.lookup]))
-    ["loc", "operation", "name", "variable_definitions", "directives", "selection_set"] (by decide +kernel)
+    (covered_attr .root "definitions" (by decide +kernel) (by simp [Holds, docW, Node.getAttr, Node.attrs, List.lookup]))
+    ((table.slots.lookup "OperationDefinition").getD []) (by decide +kernel)
     "directives" "selection_set" (by decide +kernel) (by decide +kernel) (by decide +kernel) (by decide) dirW ssW
     (by simp [Holds, opW, Node.getAttr, Node.attrs, List.lookup]) (by simp [Holds, opW, Node.getAttr, Node.attrs, List.lookup])
 
